@@ -142,7 +142,8 @@ func sortedSubs(m map[string]bool) []string {
 }
 
 // C08 client scripts: 0 [REQ s]  1 [REQ s, CLOSE s]  2 [REQ s, after its EOSE: REQ s]  3 [REQ s, REQ t]
-const C08Scripts = 4
+// 4 [REQ s, CLOSE s, REQ t] (a later subscription must work whatever the children still say about the closed one)
+const C08Scripts = 5
 
 // C08 filter sets: 0 {kinds:[1]}  1 {kinds:[1],limit:1}  2 {kinds:[1],limit:2}  3 [{kinds:[1],limit:1},{authors:[P]}]
 const C08Filters = 4
@@ -226,6 +227,8 @@ func MergeReq(h *vsched.H) {
 			c.Write(ReqMsg("s", filters...))
 		case 3:
 			c.Write(ReqMsg("s", filters...), ReqMsg("t", filters...))
+		case 4:
+			c.Write(ReqMsg("s", filters...), CloseMsg("s"), ReqMsg("t", filters...))
 		}
 	}()
 	h.WaitQuiescent()
@@ -255,7 +258,7 @@ func c08Oracle(h *vsched.H, c *Conn, kids []*reqChild, script int, filters []*mo
 		}
 	}
 	subs := []string{"s"}
-	if script == 3 {
+	if script == 3 || script == 4 {
 		subs = append(subs, "t")
 	}
 	// REQ instances per sub (script 2 has two instances of "s")
@@ -345,7 +348,7 @@ func c08Oracle(h *vsched.H, c *Conn, kids []*reqChild, script int, filters []*mo
 				}
 			}
 		}
-		closed := script == 1
+		closed := (script == 1 || script == 4) && in.sub == "s"
 		if len(eoseAt) > 1 {
 			h.Fail("C08/EOSE: more than one EOSE for one REQ", ctxs())
 		}
